@@ -15,6 +15,7 @@ from .. import c15_ast as A
 from .. import c15_gen as G
 from .. import c15_ctx as C
 from .. import c15_attrs as SP
+from .. import c15_nest as NE
 from .. import lib, prog
 
 PROP = "C15"
@@ -278,6 +279,9 @@ def gen_cases(tier, seed):
     STATS["skipped_bases"] = skipped
     cases += ctx_cases(tier, seed, [c for c in cases if c["mutation"] == "none"])
     cases += attr_cases(tier, seed, [c for c in cases if c["mutation"] == "none"])
+    # the systematic family 'the POSITION of an include_source! nested in an ascent_source! body' (gen/c15_nest.py): decided by
+    # ascent_source! when the source is defined, which no invocation of ascent_impl sees -> every case of it goes through rustc
+    cases += NE.cases(lib.rng_for(seed, PROP, "nest"), tier, [c for c in cases if c["mutation"] == "none"], A.KINDS)
     return cases
 
 
@@ -444,7 +448,7 @@ def rustc_sample(tier, seed, cases):
     rng = lib.rng_for(seed, PROP, "rustc")
     n = 20 if tier == "quick" else 120
     ok_bases = [c for c in cases if c["mutation"] == "none" and c["info"]["rustc_ok"]]
-    muts = [c for c in cases if c["mutation"] != "none" and "+" not in c["mutation"] and c["info"]["rustc_ok"]
+    muts = [c for c in cases if c["mutation"] != "none" and "+" not in c["mutation"] and c["info"]["rustc_ok"] and not c.get("rustc_nest")
             and not any(e.get("any_of") for e in c["expect"])]      # constructs the property does not speak about: FRONT vs model only
     rng.shuffle(ok_bases)
     rng.shuffle(muts)
@@ -472,17 +476,29 @@ def rustc_sample(tier, seed, cases):
     return jobs
 
 
+def nest_jobs(cases):
+    """every case of the nested-include family, under its macro kind"""
+    return [(rustc_job("x%s" % c["id"], c["program"], c["only_kind"]), c, c["only_kind"], spec_for(c, c["only_kind"], "rustc"))
+            for c in cases if c.get("rustc_nest")]
+
+
 def run_rustc(tag, jobs):
     # jobs expected to compile share one crate; jobs expected to fail go in small crates, one binary each, so that the
     # harness's blame-and-rebuild loop converges in a couple of cargo runs
     good = [j for j, _, _, want in jobs if want == {"ok"}]
-    bad = [j for j, _, _, want in jobs if want != {"ok"}]
+    bad = [j for j, c, _, want in jobs if want != {"ok"} and not c.get("rustc_nest")]
+    nest = [j for j, c, _, want in jobs if want != {"ok"} and c.get("rustc_nest")]
     res = {}
     if good:
         res.update(prog.build_and_run(tag + "_ok", good, nbins=min(lib.NCPU, max(1, len(good) // 2))))
     for i in range(0, len(bad), 16):
         chunk = bad[i:i + 16]
         res.update(prog.build_and_run("%s_x%d" % (tag, i // 16), chunk, nbins=len(chunk)))
+    # the nested-include family: every job must fail while its ascent_source! is EXPANDED (rustc reports the errors of all the
+    # expansions of a binary in one run), so many jobs share a binary; a job that is not rejected stays and is built (and run) next
+    for i in range(0, len(nest), 160):
+        chunk = nest[i:i + 160]
+        res.update(prog.build_and_run("%s_n%d" % (tag, i // 160), chunk, nbins=min(8, max(1, len(chunk) // 10))))
     out = []
     for j, c, k, want in jobs:
         r = res[j["id"]][0]
@@ -565,7 +581,7 @@ def tie(tier, seed, replay):
                 if len(samples) < 40 and (len(samples) < 3 or c["mutation"] not in [s["mutation"] for s in samples]):
                     samples.append(dict(mutation=c["mutation"], kind=k, text=A.rust_text(pr)[:600], impl=iv, model=mv, spec=sorted(want)))
     # rustc level
-    rjobs = rustc_sample(tier, seed, [c for c in cases if "info" in c]) if not replay else (replay_rustc or [])
+    rjobs = (rustc_sample(tier, seed, [c for c in cases if "info" in c]) + nest_jobs(cases)) if not replay else (replay_rustc or [])
     # crates of a run against a scratch worktree (VERIF_REPO) get their own directory: a run on /repo at the same time must not overwrite them
     rtag = "c15_%s" % tier if lib.REPO == "/repo" else "c15_%s_%s" % (tier, __import__("hashlib").sha1(lib.REPO.encode()).hexdigest()[:8])
     rres = run_rustc(rtag, rjobs) if rjobs else []
@@ -576,7 +592,7 @@ def tie(tier, seed, replay):
         key = "compiled" if r["compiled"] else "rejected"
         rdist[c["mutation"] + ":" + key] = rdist.get(c["mutation"] + ":" + key, 0) + 1
         small = dict(id=c["id"], kind=r["kind"], level="rustc", mutation=c["mutation"], expect=c["expect"], program=c["program"],
-                     text=r["job"]["pre"], only_kind=c.get("only_kind"))
+                     text=r["job"]["pre"], only_kind=c.get("only_kind"), no_splice=c.get("no_splice"), rustc_nest=c.get("rustc_nest"))
         got = ["compiled"] if r["compiled"] else ["rejected"] + [[e["line"], e["cls"], e["detail"]] for e in r["errors"][:3]]
         panicked = any(e["cls"] == "panic" for e in r["errors"])
         known = known_class(c, ["panic"], r["kind"]) if panicked else None
@@ -631,7 +647,7 @@ def tie(tier, seed, replay):
         distribution=dict(front_by_mutation=dist, front_cases=nfront, rustc_jobs=rdist,
                           programs=len(cases), decorations=_deco_hist(cases), skipped_bases=STATS.get("skipped_bases", 0),
                           attribute_positions=_attr_hist(cases), attribute_spellings=_sp_hist(cases), rebinding_patterns=_shadow_hist(cases),
-                          rebinding_contexts=_ctx_hist(cases),
+                          rebinding_contexts=_ctx_hist(cases), nested_include_positions=_nest_hist(cases),
                           pattern_get_vars_traverses_paren=(PAREN_OVERRIDE or "CheckModel.pattern_get_vars_traverses_paren")),
         mismatches=mism,
         trusted_base=["gen/c15_ast.py renderers (Rust text and Coq term from one AST), gen/c15_gen.py injections and their classes (python oracle)",
@@ -708,6 +724,21 @@ def _ctx_hist(cases):
                 h["by_depth"][str(e["depth"])] = h["by_depth"].get(str(e["depth"]), 0) + 1
                 leaf = e["shape"].rsplit(":", 1)[-1]
                 h["leaves"][leaf] = h["leaves"].get(leaf, 0) + 1
+    return h
+
+
+def _nest_hist(cases):
+    """the nested-include family: item in front of the nested include x macro definitions in front of it; last / followed; host position; macro"""
+    h = dict(by_prev_nmac={}, by_post={}, by_host={}, by_kind={}, attributed=0, cases=0)
+    for c in cases:
+        for e in c["expect"]:
+            n = e.get("nest")
+            if n:
+                h["cases"] += 1
+                for key, k in (("by_prev_nmac", "%s:%d" % (n["prev"], n["nmac"])), ("by_post", "last" if n["post"] == 0 else "followed"),
+                               ("by_host", n["host"]), ("by_kind", c.get("only_kind"))):
+                    h[key][k] = h[key].get(k, 0) + 1
+                h["attributed"] += int(n["attributed"])
     return h
 
 
